@@ -412,3 +412,155 @@ pub fn params_view(p: &CertificateParams) -> Value {
 		"crldp": p.crl_distribution_points.len(), "custom": p.custom_extensions.len(), "aki": p.use_authority_key_identifier_extension,
 	})
 }
+
+// ---- random descriptors (drivers beyond the TLC-enumerated domains) --------------------------------
+
+pub fn random_time(rng: &mut Rng) -> Value {
+	let y = match rng.below(6) {
+		0 => rng.range(0, 9999),
+		1 => rng.range(1949, 1951),
+		2 => rng.range(2049, 2051),
+		_ => rng.range(1970, 2100),
+	};
+	let mo = rng.range(1, 12);
+	let dmax = match mo {
+		2 => {
+			if (y % 4 == 0 && y % 100 != 0) || y % 400 == 0 {
+				29
+			} else {
+				28
+			}
+		},
+		4 | 6 | 9 | 11 => 30,
+		_ => 31,
+	};
+	let off = match rng.below(4) {
+		0 => 0,
+		1 => rng.range(-25, 25) * 3600,
+		2 => rng.range(-93599, 93599),
+		_ => *rng.pick(&[1800, -1800, 20700, 34200, -34200, 45900]),
+	};
+	// keep the UTC year inside 0..=9999 (C09 scope): avoid the first and last two days of the range
+	let (mo, d) = if y == 0 && mo == 1 { (1, rng.range(3, 31)) } else if y == 9999 && mo == 12 { (12, rng.range(1, 28)) } else { (mo, rng.range(1, dmax)) };
+	json!({"y": y, "mo": mo, "d": d, "h": rng.range(0, 23), "mi": rng.range(0, 59), "s": rng.range(0, 59),
+		"ns": *rng.pick(&[0i64, 0, 1, 999, 123456789, 999999999]), "off": off})
+}
+
+pub fn random_dn(rng: &mut Rng, max: u64) -> Value {
+	let types = ["2.5.4.6", "2.5.4.7", "2.5.4.8", "2.5.4.10", "2.5.4.11", "2.5.4.3", "1.2.840.113549.1.9.1", "0.9.2342.19200300.100.1.25", "2.999.1.2.3", "1.3.6.1.4.1.55555.7"];
+	let kinds = ["utf8", "printable", "ia5", "teletex", "bmp", "universal"];
+	let n = rng.below(max + 1) as usize;
+	let mut used: Vec<&str> = Vec::new();
+	let mut out = Vec::new();
+	for _ in 0..n {
+		let t = *rng.pick(&types);
+		if used.contains(&t) {
+			continue;
+		}
+		used.push(t);
+		let k = *rng.pick(&kinds);
+		let maxlen = if rng.chance(1, 10) { 200 } else { 12 };
+		out.push(json!({"ty": t, "kind": k, "val": hex(random_text(k, rng, maxlen).as_bytes())}));
+	}
+	Value::Array(out)
+}
+
+pub fn random_gname(rng: &mut Rng) -> Value {
+	match rng.below(6) {
+		0 => json!({"v": "rfc822", "val": hex(random_text("ia5", rng, 20).as_bytes()), "b": [], "oid": "", "dn": []}),
+		1 => json!({"v": "dns", "val": hex(random_text("ia5", rng, 30).as_bytes()), "b": [], "oid": "", "dn": []}),
+		2 => json!({"v": "uri", "val": hex(random_text("ia5", rng, 40).as_bytes()), "b": [], "oid": "", "dn": []}),
+		3 => json!({"v": "ip", "val": "", "b": bytes_json(&rng.bytes(4)), "oid": "", "dn": []}),
+		4 => {
+			let mut b = rng.bytes(16);
+			if rng.chance(1, 4) {
+				b[..10].fill(0);
+				b[10] = 0xff;
+				b[11] = 0xff;
+			}
+			json!({"v": "ip", "val": "", "b": bytes_json(&b), "oid": "", "dn": []})
+		},
+		_ => json!({"v": "other", "val": hex(random_text("utf8", rng, 12).as_bytes()), "b": [], "oid": format!("1.3.6.1.4.1.{}.{}", rng.below(100000), rng.below(1 << 40)), "dn": []}),
+	}
+}
+
+pub fn random_subtree(rng: &mut Rng) -> Value {
+	match rng.below(5) {
+		0 => json!({"v": "dns", "val": hex(random_text("ascii-graphic", rng, 20).as_bytes()), "b": [], "dn": [], "prefix": {"k": "none", "n": 0}, "mask": []}),
+		1 => json!({"v": "rfc822", "val": hex(random_text("ascii-graphic", rng, 20).as_bytes()), "b": [], "dn": [], "prefix": {"k": "none", "n": 0}, "mask": []}),
+		2 => json!({"v": "dir", "val": "", "b": [], "dn": random_dn(rng, 3), "prefix": {"k": "none", "n": 0}, "mask": []}),
+		3 => {
+			let v6 = rng.chance(1, 2);
+			json!({"v": "ip", "val": "", "b": bytes_json(&rng.bytes(if v6 { 16 } else { 4 })), "dn": [], "prefix": {"k": "some", "n": rng.below(256)}, "mask": []})
+		},
+		_ => {
+			let n = if rng.chance(1, 2) { 16 } else { 4 };
+			json!({"v": "ip", "val": "", "b": bytes_json(&rng.bytes(n)), "dn": [], "prefix": {"k": "none", "n": 0}, "mask": bytes_json(&rng.bytes(n))})
+		},
+	}
+}
+
+fn random_oid(rng: &mut Rng) -> String {
+	let mut s = format!("{}.{}", rng.below(3), rng.below(40));
+	for _ in 0..rng.below(8) {
+		s.push_str(&format!(".{}", if rng.chance(1, 5) { rng.next() >> rng.below(63) } else { rng.below(1000) }));
+	}
+	s
+}
+
+pub fn random_params(rng: &mut Rng) -> Value {
+	let opt = |rng: &mut Rng, p: u64| rng.chance(p, 10);
+	let serial = if opt(rng, 6) { let n = rng.below(21) as usize; json!({"k": "given", "b": bytes_json(&rng.bytes(n))}) } else { json!({"k": "auto", "b": []}) };
+	let sans: Vec<Value> = if opt(rng, 5) { (0..1 + rng.below(6)).map(|_| random_gname(rng)).collect() } else { vec![] };
+	let is_ca = match rng.below(5) {
+		0 | 1 => json!({"k": "NoCa", "pl": {"k": "none", "n": 0}}),
+		2 => json!({"k": "ExplicitNoCa", "pl": {"k": "none", "n": 0}}),
+		3 => json!({"k": "Ca", "pl": {"k": "none", "n": 0}}),
+		_ => json!({"k": "Ca", "pl": {"k": "some", "n": rng.below(256)}}),
+	};
+	let ku: Vec<Value> = if opt(rng, 5) { (0..1 + rng.below(6)).map(|_| json!(rng.below(9))).collect() } else { vec![] };
+	let std_eku = ["2.5.29.37.0", "1.3.6.1.5.5.7.3.1", "1.3.6.1.5.5.7.3.2", "1.3.6.1.5.5.7.3.3", "1.3.6.1.5.5.7.3.4", "1.3.6.1.5.5.7.3.8", "1.3.6.1.5.5.7.3.9"];
+	let mut eku: Vec<Value> = Vec::new();
+	if opt(rng, 5) {
+		for _ in 0..1 + rng.below(4) {
+			let e = if rng.chance(1, 4) { format!("1.3.6.1.4.1.311.{}.{}", rng.below(50), rng.below(50)) } else { rng.pick(&std_eku).to_string() };
+			if !eku.contains(&json!(e)) {
+				eku.push(json!(e));
+			}
+		}
+	}
+	let nc = if opt(rng, 4) {
+		let perm: Vec<Value> = (0..rng.below(4)).map(|_| random_subtree(rng)).collect();
+		let excl: Vec<Value> = (0..rng.below(4)).map(|_| random_subtree(rng)).collect();
+		json!({"k": "some", "perm": perm, "excl": excl})
+	} else {
+		json!({"k": "none", "perm": [], "excl": []})
+	};
+	let crldp: Vec<Value> = if opt(rng, 3) {
+		(0..1 + rng.below(3)).map(|_| Value::Array((0..1 + rng.below(3)).map(|_| json!(hex(random_text("ascii-graphic", rng, 30).as_bytes()))).collect())).collect()
+	} else {
+		vec![]
+	};
+	let mut custom: Vec<Value> = Vec::new();
+	if opt(rng, 3) {
+		for i in 0..1 + rng.below(3) {
+			let content = match rng.below(4) {
+				0 => "0500".to_string(),
+				1 => format!("04{:02x}{}", 8, hex(&rng.bytes(8))),
+				2 => format!("0c{:02x}{}", 5, hex(b"hello")),
+				_ => format!("30{:02x}0201{:02x}0101ff", 6, rng.below(128)),
+			};
+			custom.push(json!({"oid": format!("1.3.6.1.4.1.55555.{}.{}", i, rng.below(1000)), "crit": rng.chance(1, 2), "content": content}));
+		}
+	}
+	let kid = match rng.below(5) {
+		0 => json!({"k": "sha256", "b": []}),
+		1 => json!({"k": "sha384", "b": []}),
+		2 => json!({"k": "sha512", "b": []}),
+		3 => { let n = rng.below(24) as usize; json!({"k": "pre", "b": bytes_json(&rng.bytes(n))}) },
+		_ => json!({"k": "sha256", "b": []}),
+	};
+	let _ = random_oid(rng);
+	json!({"nb": random_time(rng), "na": random_time(rng), "serial": serial, "dn": random_dn(rng, 6), "sans": sans, "isCa": is_ca, "ku": ku, "eku": eku,
+		"nc": nc, "crldp": crldp, "custom": custom, "aki": rng.chance(1, 2), "kid": kid})
+}
